@@ -11,6 +11,7 @@
 (*    / in the WINDOW / gone), the environment events "notify", "output",  *)
 (*    "extkill", "timer" (the kill-delay timer fired), and the             *)
 (*    informational "launch" (task generator called), "rc" (task ended),   *)
+(*    "fault" (a listing of the producer's directory raised OSError),      *)
 (*    "end" (run cut at the horizon).  s: stamp in half seconds.           *)
 (* o: the observation taken from the engine right after the event through  *)
 (*    its public state (isAlive(), exitReason(), repeatRetries, ...), in   *)
@@ -58,11 +59,11 @@ AtYield == Blocked \/ pc \in {"window", "dead"}
 
 Conform ==
     /\ tmode = "conform" /\ l < N /\ UNCHANGED <<tid, tmode, ob>>
-    /\ \/ /\ E.k \in {"launch", "rc", "end"} /\ now = E.s \div 2   \* informational for this mode
+    /\ \/ /\ E.k \in {"launch", "rc", "end", "fault"} /\ now = E.s \div 2   \* informational for this mode
           /\ l' = l + 1 /\ UNCHANGED vars
        \/ /\ E.k = "blocked" /\ AtYield /\ ObsNow = E.o
           /\ l' = l + 1 /\ UNCHANGED vars
-       \/ /\ E.k \in {"blocked", "launch", "rc", "end"}           \* the monitor thread is running
+       \/ /\ E.k \in {"blocked", "launch", "rc", "end", "fault"}  \* the monitor thread is running
           /\ MonitorStep /\ UNCHANGED l
        \/ /\ now < E.s \div 2
           /\ Tick /\ UNCHANGED l
@@ -80,6 +81,7 @@ Observe ==
               [] E.k = "extkill" -> HExt(h)
               [] E.k = "launch"  -> HLaunch(h, E.s \div 2, cfg.mode)
               [] E.k = "rc"      -> HTaskEnd(h, E.rc)
+              [] E.k = "fault"   -> HFault(h)
               [] OTHER -> h
     /\ UNCHANGED <<cfg, now, pc, wakeAt, retries, cancel, suicide, kc, consume, pdone, timer2, lastL, lastF, begun,
                    proc, procRc, procKilled, isNew, pdwis, didExec, dev, sched, obs>>
